@@ -14,8 +14,8 @@ fn groups_for(prop: &str, ctx: &Ctx) -> Vec<Box<dyn Group>> {
         "C19" => vec![Box::new(c19::Split), Box::new(c19::Msg), Box::new(c19::Dispatch::new(ctx)), Box::new(c19::InFlight), Box::new(c19::Cli::new(ctx))],
         "C09" => vec![Box::new(c09::Reply), Box::new(c09::Tiling), Box::new(c09::Wire)],
         "C12" => vec![Box::new(c12::Run), Box::new(c12::Serve), Box::new(c12::Hosts)],
-        "C18" => vec![Box::new(c18::Write), Box::new(c18::Replace), Box::new(c18::ReplaceSeq), Box::new(c18::FileRead::new()), Box::new(c18::ReadAll)],
-        "C16" => vec![Box::new(c16::Ops), Box::new(c16::Present), Box::new(c16::Trace)],
+        "C18" => vec![Box::new(c18::Write), Box::new(c18::Replace), Box::new(c18::ReplaceSeq), Box::new(c18::FileRead::new()), Box::new(c18::ReadAll), Box::new(c18::Adaptor)],
+        "C16" => vec![Box::new(c16::Ops), Box::new(c16::Present), Box::new(c16::Trace), Box::new(c16::EmptyArgs)],
         "C15" => vec![Box::new(c15::Route), Box::new(c15::Isolation), Box::new(c15::Conn), Box::new(c20::HostsTls::new())],
         "C14" => vec![Box::new(c14::Rules), Box::new(c14::NonceRewrite::new()), Box::new(c14::CspHeader), Box::new(c14::Chain)],
         "C01" => vec![Box::new(c01::PathOk), Box::new(c01::San), Box::new(c01::Read::new(ctx))],
@@ -30,7 +30,7 @@ fn groups_for(prop: &str, ctx: &Ctx) -> Vec<Box<dyn Group>> {
         "C20" => vec![Box::new(c20::Pair::new()), Box::new(c20::MuxStreams::new()), Box::new(c20::HostsTls::new())],
         "C10" => vec![Box::new(c10::Nested), Box::new(c10::Ctl)],
         "C11" => vec![Box::new(c11::Chain), Box::new(c10::Nested)],
-        "C02" => vec![Box::new(c02::Headers), Box::new(c02::Head), Box::new(c02::Stack), Box::new(c02::Crawl), Box::new(c09::Reply), Box::new(c15::Route),
+        "C02" => vec![Box::new(c02::Headers), Box::new(c02::Head), Box::new(c02::Stack), Box::new(c02::Crawl), Box::new(c02::QueryStr), Box::new(c02::QueryIter), Box::new(c16::EmptyArgs), Box::new(c09::Reply), Box::new(c15::Route),
             Box::new(c16::Present), Box::new(c14::NonceRewrite::new()), Box::new(c06::ListHeader), Box::new(c01::San), Box::new(c18::Replace)],
         _ => vec![],
     }
